@@ -38,33 +38,45 @@ impl Flow {
             name: name.to_string(),
             callstack: Rc::new(RefCell::new(CallStack::new(main_content_container.clone()))),
             output_stream: json_read::jarray_to_runtime_obj_list(
-                j_obj
-                    .get("outputStream")
-                    .ok_or(StoryError::BadJson("outputStream not found.".to_owned()))?
-                    .as_array()
-                    .unwrap(),
+                json_read::token_array(
+                    j_obj
+                        .get("outputStream")
+                        .ok_or(StoryError::BadJson("outputStream not found.".to_owned()))?,
+                    "outputStream",
+                )?,
                 false,
             )?,
-            current_choices: json_read::jarray_to_runtime_obj_list(
+            current_choices: Vec::new(),
+        };
+
+        let choice_objs = json_read::jarray_to_runtime_obj_list(
+            json_read::token_array(
                 j_obj
                     .get("currentChoices")
-                    .ok_or(StoryError::BadJson("currentChoices not found.".to_owned()))?
-                    .as_array()
-                    .unwrap(),
-                false,
-            )?
-            .iter()
-            .map(|o| o.clone().into_any().downcast::<Choice>().unwrap())
-            .collect::<Vec<Rc<Choice>>>(),
-        };
+                    .ok_or(StoryError::BadJson("currentChoices not found.".to_owned()))?,
+                "currentChoices",
+            )?,
+            false,
+        )?;
+        for o in choice_objs {
+            match o.into_any().downcast::<Choice>() {
+                Ok(choice) => flow.current_choices.push(choice),
+                Err(_) => {
+                    return Err(StoryError::BadJson(
+                        "currentChoices holds something that is not a choice".to_owned(),
+                    ));
+                }
+            }
+        }
 
         flow.callstack.borrow_mut().load_json(
             &main_content_container,
-            j_obj
-                .get("callstack")
-                .ok_or(StoryError::BadJson("loading callstack".to_owned()))?
-                .as_object()
-                .unwrap(),
+            json_read::token_object(
+                j_obj
+                    .get("callstack")
+                    .ok_or(StoryError::BadJson("loading callstack".to_owned()))?,
+                "callstack",
+            )?,
         )?;
         let j_choice_threads = j_obj.get("choiceThreads");
 
@@ -134,24 +146,25 @@ impl Flow {
         main_content_container: Rc<Container>,
     ) -> Result<(), StoryError> {
         for choice in self.current_choices.iter_mut() {
-            self.callstack
+            let thread_index = *choice.original_thread_index.borrow();
+            let found_active_thread = self
+                .callstack
                 .borrow()
-                .get_thread_with_index(*choice.original_thread_index.borrow())
-                .map(|o| choice.set_thread_at_generation(o.clone()))
-                .or_else(|| {
+                .get_thread_with_index(thread_index)
+                .cloned();
+
+            match found_active_thread {
+                Some(thread) => choice.set_thread_at_generation(thread),
+                None => {
                     let j_saved_choice_thread = j_choice_threads
-                        .and_then(|c| c.get(choice.original_thread_index.borrow().to_string()))
-                        .ok_or("loading choice threads")
-                        .unwrap();
-                    choice.set_thread_at_generation(
-                        Thread::from_json(
-                            &main_content_container,
-                            j_saved_choice_thread.as_object().unwrap(),
-                        )
-                        .unwrap(),
-                    );
-                    Some(())
-                });
+                        .and_then(|c| c.get(thread_index.to_string()))
+                        .ok_or(StoryError::BadJson("loading choice threads".to_owned()))?;
+                    choice.set_thread_at_generation(Thread::from_json(
+                        &main_content_container,
+                        json_read::token_object(j_saved_choice_thread, "choice thread")?,
+                    )?);
+                }
+            }
         }
 
         Ok(())
